@@ -1,5 +1,10 @@
 use super::Instant;
 
+// Verification hook: under `--cfg loom` (only ever set by the external model-checking
+// harness, which includes this file) the lock is loom's.
+#[cfg(loom)]
+use loom::sync::RwLock;
+#[cfg(not(loom))]
 use std::sync::RwLock;
 
 pub(crate) struct AtomicInstant {
